@@ -16,6 +16,8 @@ DZ = {
     "deep30": [0.1] * 30,  # never deepened
     "d15": [0.15] * 10,
     "d30": [0.3] * 5,
+    "d15x20": [0.15] * 20,  # odd number of centimetres: compartment centres fall on half centimetres (never deepened: 3.0 m)
+    "odd": [0.05] * 4 + [0.15] * 18,
     "few8": [0.1] * 4 + [0.2] * 4,  # few compartments: deepening for a deep-rooted crop thickens even the top one
 }
 
